@@ -607,3 +607,44 @@ class Len(_JG):
 
     def ensures(self, c):
         return [("value", c.result == props(c.old.self).n)]
+
+
+@register
+class ToJson(_JG):
+    """Read-only: the definition and the caches are unchanged and the builder's own required set is empty again afterwards."""
+
+    targets = (JG + ".to_json",)
+    returns = TStr
+    modifies = ("self", BUILDER + ".req")
+
+    def ensures(self, c):
+        g0, g1 = c.old.self, c.new.self
+        return cvb(g1) + meta_wf(g1) + definition_kept(g0, g1) + caches_kept(g0, g1)
+
+
+def _all_types_known(c):
+    k = kq("k!atk")
+    t = c.old.names_to_types
+    return z3.ForAll([k], z3.Implies(t.has(k), z3.Or(t.get(k) == val_none, J.json_known_type(t.get(k)))))
+
+
+@register
+@with_cvb
+class UpdateFromTypes(_JG):
+    """Every given name becomes (or stays) an element (KeyError for a type JSON cannot express, nothing changed then); the others are untouched; no cache survives."""
+
+    targets = (JG + "._update_from_types",)
+    params = {"names_to_types": TDict(TStr, TVal), "merge": TBool}
+    modifies = ("self", BUILDER)
+    raises = {"KeyError": lambda c: z3.Not(_all_types_known(c))}
+
+    def ensures(self, c):
+        g0, g1 = c.old.self, c.new.self
+        t = c.old.names_to_types
+        k = kq("k!uft")
+        return added(props(g1), props(g0), lambda x: t.has(x)) + parts_kept(g0, g1) + [
+            ("new-schemas:of-the-types-when-replacing", z3.ForAll([k], z3.Implies(z3.And(t.has(k), z3.Not(c.old.merge)), props(g1).get(k) == J.json_node_of_type(t.get(k)))))]
+
+    def raise_ensures(self, c, exc):
+        g0, g1 = c.old.self, c.new.self
+        return [("unchanged:properties", same_dict(props(g1), props(g0)))] + caches_kept(g0, g1)
